@@ -75,12 +75,15 @@ Seqs2(Q) == {<<>>} \cup {<<x>> : x \in Q} \cup {<<x, y>> : x \in Q, y \in Q}
 Put(c, k, v) == LET ks == SortedKeys({c.xs[i][1] : i \in 1..Len(c.xs)} \cup {k})
                 IN DictV([n \in 1..Len(ks) |-> <<ks[n], IF ks[n] = k THEN v ELSE ValAt(c, ks[n])>>])
 Rem(c, k) == DictV(SelectSeq(c.xs, LAMBDA kv : kv[1] # k))
-FR(okk, c) == [ok |-> okk, c |-> c]
+FR(okk, c) == [ok |-> okk, c |-> c, dc |-> FALSE]
+\* don't-care outcome: the content is unchanged, the call may or may not raise (out = "any")
+FRAny(c) == [ok |-> FALSE, c |-> c, dc |-> TRUE]
 
 \* one field write `c[k] = v` under effective allow_partial p (Appendix F: Dict.__setitem__)
 FW(c, k, v, p) ==
   LET j == MatchIdx(RootSpec, k) IN
-  IF j = 0 THEN FR(FALSE, c)                                                \* undeclared key: KeyError
+  IF j = 0 THEN (IF v = VMissing THEN FRAny(c)                              \* "delete" an undeclared (hence absent) key: nothing to do
+                 ELSE FR(FALSE, c))                                         \* undeclared key: KeyError
   ELSE LET f == RootSpec.fields[j][2]
            const == RootSpec.fields[j][1] # 0
        IN IF v = VMissing /\ ~const THEN FR(TRUE, IF HasKey(c, k) THEN Rem(c, k) ELSE c)    \* MISSING deletes a dynamic key
@@ -147,7 +150,8 @@ Step(okk, nroot, nalts, sc, a) ==
   /\ pok' = (pok \/ (sc = "T"))
   /\ act' = a
 StepL(r, a) == Step(r.ok, Lift(r.l), {Lift(x) : x \in r.alts}, "N", a)
-StepF(r, sc, a) == Step(r.ok, r.c, {r.c}, sc, a)
+StepF(r, sc, a) == IF r.dc THEN /\ out' = "any" /\ alts' = {r.c} /\ root' = r.c /\ pok' = (pok \/ (sc = "T")) /\ act' = a
+                   ELSE Step(r.ok, r.c, {r.c}, sc, a)
 
 \* ---- dict-like roots
 FSet(name) == \E k \in P(KeysOf), v \in P(FieldPool), sc \in P(Scopes) :
@@ -178,7 +182,8 @@ DSetDefault == /\ "dset" \in Acts /\ Kind = "dict"
                     StepF(IF HasKey(root, k) /\ ValAt(root, k) # VMissing THEN FR(TRUE, root) ELSE FW(root, k, v, InitPartial),
                           "N", <<"DSetDefault", "N", k, v>>)
 \* batches of two field writes on different keys: update / |= / rebind with two paths
-Batch2(name) == \E k1 \in P(KeysOf), k2 \in P(KeysOf), v1 \in P(FieldPool \ {VMissing}), v2 \in P(FieldPool \ {VMissing}) :
+BatchPool == IF Small THEN {IntV(0), IntV(-1), StrV(1)} ELSE FieldPool \ {VMissing}
+Batch2(name) == \E k1 \in P(KeysOf), k2 \in P(KeysOf), v1 \in P(BatchPool), v2 \in P(BatchPool) :
   /\ k1 # k2
   /\ LET r1 == FW(root, k1, v1, InitPartial)
          r2 == FW(root, k2, v2, InitPartial)
@@ -260,7 +265,7 @@ AltsConform == \A c \in alts : ConformsTo(c, pok)       \* ... whichever admissi
 
 IsBatch(a) == a[1] \in {"DUpdate", "DIor", "Rebind2", "LRebind2", "LExtend", "LIadd", "LSetSlice"}
 \* a rejected write is not stored (a batch may have kept earlier valid elements: one of `alts`)
-RejectedWriteNoStore == [][out' = "err" => /\ root \in alts'
+RejectedWriteNoStore == [][out' \in {"err", "any"} => /\ root \in alts'
                                            /\ root' \in alts'
                                            /\ (~IsBatch(act') => root' = root)]_vars
 =============================================================================
